@@ -335,6 +335,14 @@ func pairRace(r *rand.Rand, name string) tv.Trace {
 		x.Tags = []abs.Tag{{Name: "d", Val: "x", N: 2}}
 	}
 	k := abs.Event{ID: "k", Author: "a", Kind: 5, TS: 3, Tags: []abs.Tag{{Name: "e", Val: "x", N: 2}}}
+	findFs := []abs.Filter{{}}
+	if r.Intn(3) == 0 {
+		// variant: two versions of one address inserted at the same moment, listed by a query with two
+		// overlapping filters (each filter must be answered from the same snapshot)
+		x = abs.Event{ID: "x", Author: "a", Kind: 30000, TS: 2, Tags: []abs.Tag{{Name: "d", Val: "x", N: 2}}}
+		k = abs.Event{ID: "k", Author: "a", Kind: 30000, TS: 4, Tags: []abs.Tag{{Name: "d", Val: "x", N: 2}}}
+		findFs = []abs.Filter{{Kinds: abs.IntSet{P: true, S: []int64{30000}}}, {Authors: abs.StrSet{P: true, S: []string{"a"}}}}
+	}
 	cache := mocrelay.NewEventCache(cap)
 	tr := tv.Trace{Name: name}
 	var mu sync.Mutex
@@ -358,8 +366,8 @@ func pairRace(r *rand.Rand, name string) tv.Trace {
 		<-start
 		for i := 0; i < 3; i++ {
 			id := fmt.Sprintf("%s/f%d", name, i)
-			log(map[string]any{"op": "call", "id": id, "kind": "find", "e": dummyEv, "fs": abs.NormFilters([]abs.Filter{{}}), "shape": "call find"})
-			res := cache.Find(matchAll)
+			log(map[string]any{"op": "call", "id": id, "kind": "find", "e": dummyEv, "fs": abs.NormFilters(findFs), "shape": "call find"})
+			res := cache.Find(conc.Filters(findFs))
 			log(map[string]any{"op": "ret", "id": id, "added": false, "res": conc.Labels(res), "n": 0, "shape": "ret find (event raced with its deletion request)"})
 		}
 	}()
